@@ -129,6 +129,10 @@ def run(chk):
                         zero = set(e[1] * 4 * N0 for e in pc["events"] if e[0] == "s" and e[3] == 0)
                         if all(any(math.isclose(t, z, rel_tol=1e-9) for z in zero) for t in tb):
                             kinds = ["move", "split-keeps-nothing"]
+                        else:
+                            nsplits = lambda t: sum(1 for e in pc["events"] if e[0] == "s" and math.isclose(e[1] * 4 * N0, t, rel_tol=1e-9))
+                            if all(nsplits(t) >= 2 for t in tb):
+                                kinds = ["move", "several-same-time-splits"]
                     chk.violation("from_ms:semantics:" + "+".join(kinds),
                                   "the graph does not describe the command's demography: %s at t=%r (%r)" % (bad[0][0], bad[0][2], bad[0][1]),
                                   dict(rep, graph=gen.graph_payload(g), discrepancies=bad[:10]))
